@@ -105,6 +105,11 @@ def _cases(draw):
         if inner and g.p("_", 0.4):
             # an empty group keeps its own node: a hoisted question of the same name lands beside it
             form["nodes"].insert(g.integer(0, len(form["nodes"])), {"k": "g", "c": {"name": g.pick(inner)["c"]["name"], "label": "E"}, "ch": []})
+        grps = [n for n, _ in model.walk(form["nodes"]) if n["k"] == "g" and n.get("ch")]
+        if grps and g.p("_", 0.4):
+            # an external-instance row (no node of its own) in the middle of a hoisted group
+            gr = g.pick(grps)
+            gr["ch"].insert(g.integer(0, len(gr["ch"])), {"k": "q", "c": {"type": g.pick(["csv-external", "xml-external"]), "name": g.name("ext")}})
         for n, _ in model.walk(form["nodes"]):
             if n["k"] == "g" and n.get("ch") and g.p("_", 0.4):
                 # logic on a flattened group other than relevance: the group has no node of its own to bind
